@@ -68,9 +68,28 @@ func newIndexFor(c *hnCase) *index.Hnsw {
 	if c.Cfg.Heur {
 		alg = index.HnswSearchHeuristic
 	}
-	return index.NewHnsw(uint(c.Dim), mkSpace(c.Cfg.Space), index.HnswM(c.Cfg.M), index.HnswMmax(c.Cfg.MMax), index.HnswMmax0(c.Cfg.MMax0),
-		index.HnswEf(c.Cfg.Ef), index.HnswEfConstruction(c.Cfg.EfC), index.HnswSearchAlgorithm(alg),
+	opts := []index.HnswOption{index.HnswM(c.Cfg.M)}
+	// link caps that are the derived defaults (mMax = M, mMax0 = 2M) are left to the constructor to derive
+	if c.Cfg.MMax != c.Cfg.M {
+		opts = append(opts, index.HnswMmax(c.Cfg.MMax))
+	}
+	if c.Cfg.MMax0 != 2*c.Cfg.M {
+		opts = append(opts, index.HnswMmax0(c.Cfg.MMax0))
+	}
+	opts = append(opts, index.HnswEf(c.Cfg.Ef), index.HnswEfConstruction(c.Cfg.EfC), index.HnswSearchAlgorithm(alg),
 		index.HnswHeuristicExtendCandidates(c.Cfg.Extend), index.HnswHeuristicKeepPruned(c.Cfg.Keep))
+	return index.NewHnsw(uint(c.Dim), mkSpace(c.Cfg.Space), opts...)
+}
+
+// configMismatch: the parameters the constructed index really uses against the ones the case (and the model) assume
+func configMismatch(idx *index.Hnsw, c *hnCase) string {
+	g := idx.VerifConfig()
+	if g.M != c.Cfg.M || g.MMax != c.Cfg.MMax || g.MMax0 != c.Cfg.MMax0 || g.Ef != c.Cfg.Ef || g.EfConstruction != c.Cfg.EfC ||
+		g.Heuristic != c.Cfg.Heur || g.ExtendCandidates != c.Cfg.Extend || g.KeepPruned != c.Cfg.Keep {
+		return fmt.Sprintf("index built with M=%d (caps %d/%d requested or derived), ef=%d, efConstruction=%d uses M=%d mMax=%d mMax0=%d ef=%d efConstruction=%d heuristic=%v extend=%v keepPruned=%v",
+			c.Cfg.M, c.Cfg.MMax, c.Cfg.MMax0, c.Cfg.Ef, c.Cfg.EfC, g.M, g.MMax, g.MMax0, g.Ef, g.EfConstruction, g.Heuristic, g.ExtendCandidates, g.KeepPruned)
+	}
+	return ""
 }
 
 func distMatrix(c *hnCase) ([][]uint32, bool, bool) {
@@ -370,6 +389,9 @@ func runC01(a *args) error {
 	for ci := range cases {
 		c := &cases[ci]
 		m, _, _ := distMatrix(c)
+		if why := configMismatch(newIndexFor(c), c); why != "" {
+			st.ImplFailures = append(st.ImplFailures, implFailure{Case: ci, What: why, Key: "config-not-as-requested", Input: c.Cfg})
+		}
 		panicked, msg := recoverPanic(func() { runHnCase(c) })
 		if panicked {
 			st.ImplFailures = append(st.ImplFailures, implFailure{Case: ci, What: "index operation panicked: " + msg, Key: "index-panic", Input: *c})
